@@ -13,6 +13,37 @@ class Unencodable(Exception):
     pass
 
 
+
+def _whole_value(arr, off, n):
+    """if the n bytes at constant offset off were last written as the n byte slices of one value X (a scalar store), return X itself:
+    going through simplify(Concat(Select(Store..))) lets the rewriter push the low-byte extract into products, which hides from the
+    arithmetic abstraction that both sides compute the same product"""
+    parts = []
+    for i in range(n):
+        a = arr
+        want = off + i
+        got = None
+        while z3.is_app(a) and a.decl().kind() == z3.Z3_OP_STORE:
+            ix = a.arg(1)
+            if not z3.is_bv_value(ix):
+                ix = z3.simplify(ix)
+            if not z3.is_bv_value(ix):
+                return None
+            if ix.as_long() == want:
+                got = a.arg(2)
+                break
+            a = a.arg(0)
+        if got is None or not (z3.is_app(got) and got.decl().kind() == z3.Z3_OP_EXTRACT):
+            return None
+        hi, lo = got.params()
+        if (hi, lo) != (8 * i + 7, 8 * i):
+            return None
+        parts.append(got.arg(0))
+    x = parts[0]
+    if x.size() != 8 * n or any(p_.get_id() != x.get_id() for p_ in parts[1:]):
+        return None
+    return x
+
 class L3:
     def __init__(self, comp):
         self.comp = comp
@@ -42,6 +73,10 @@ class L3:
         self.codes = ['OK', 'FAIL', 'DONE'] + ['FINISH_' + c for c in comp.dctx.finish_codes] + ['YIELD_' + c for c in comp.dctx.yield_codes]
         self.nstates = len(comp.dfa.states)
         self.dynstrs = [n for n, o in comp.spec.items() if o.type == OST.STR] if self.dynamic else []
+        # on-demand allocation: a string with a default value is allocated by start(), and only a freeing delete makes it NULL again,
+        # so without -fdelete-string-free-memory "allocated" is part of the representation invariant for those strings (checked after
+        # start() and after every step like the rest of the invariant); nmfu's own assignment guard relies on exactly this
+        self.never_null = set(n for n in self.dynstrs if comp.spec[n].default_value is not None) if (self.ondemand and not self.cfg['DELETE_STRING_FREE_MEMORY']) else set()
 
     # ---- struct layout from the header declaration order (documented API) + IR types
     def _fields(self):
@@ -181,6 +216,9 @@ class L3:
         off, ty = self.off[path]
         arr = mem.objs['state'].arr
         n = ty.size()
+        whole = _whole_value(arr, off, n)
+        if whole is not None:
+            return whole
         bs = [z3.Select(arr, bv(off + i, 64)) for i in range(n)]
         return z3.simplify(z3.Concat(*reversed(bs)) if n > 1 else bs[0])
 
@@ -245,7 +283,9 @@ class L3:
                     out.append((f'{n}: pointer cell holds a pointer', z3.BoolVal(False)))
                     continue
                 if p.obj is None:
-                    if self.ondemand:
+                    if self.ondemand and n in self.never_null:
+                        out.append((f'{n}: allocated (has a default value and nothing frees it)', z3.BoolVal(False)))
+                    elif self.ondemand:
                         out.append((f'{n}: NULL => counter == 0', ln == 0))
                     else:
                         out.append((f'{n}: allocated', z3.BoolVal(False)))
